@@ -9,8 +9,15 @@ from ..pipeline import NONE, START, END, ALL, IDS
 
 MODULE = 'KdVerif.Props.C20'
 NAMESPACE = 'KdVerif.C20'
-TRUSTED = ['Model/Trace.{hMachVmfault, vmfaultCore, pidProtOf, hDyldLaunch, hPerfEvent} are hand models of '
-           'mach.handle_mach_vmfault / dyld.handle_timing_launch_executable / perf.handle_event, tied to the code by the '
+TRUSTED = ['Model/Trace.{hMachVmfault, vmfaultCore, pidProtOf, hDyldLaunch, hPerfEvent, hPerfThdData} are hand models of '
+           'mach.handle_mach_vmfault / dyld.handle_timing_launch_executable / perf.handle_event / perf.handle_thd_data, tied '
+           'to the code (a) by TRANSLATION of their source text: tools/gen_pyir_co.py (pure ast) turns perf.py, '
+           'handle_mach_vmfault and handle_timing_launch_executable (+ the image handlers it calls, the dataclasses and '
+           'their __str__) into the Python-subset IR of Model/PyIRCo on every run; source_is_expected_ir pins the generated '
+           'terms, handle_*_ir_eq_model prove that the interpreter on them IS the hand model for every code table, enum '
+           'table, nested parse_event_list, tables and window of four-word records; trusted there: the translator and the '
+           'interpreter (both run against CPython in the mirror sections `*-ir`, command tracesco), the reflected enum '
+           'tables, pidProtOf / the generated RealFaultAddress* decoders behind the nested parse_event_list; and (b) by the '
            'correspondence sections `vmfault`, `launch`, `sampler`, `custom-codes`, `pipeline` (real '
            'TracesParser.feed_generator vs. the compiled Lean `Trace.run`)',
            'the nested RealFaultAddress* records are evaluated by the generated decoder IR (translator + IR.eval); '
@@ -29,12 +36,17 @@ LEVEL_TEXT = ('Lean theorems over the whole-TracesParser model: vmfault_spec is 
               'regenerated RealFaultAddress* decoders, omitted when absent or of a kind without handler), '
               'vmfault_ignores_outside (congruence: only START, END and the in-range interior records matter), launch_spec '
               '(Perm + Pairwise + per-address stability of the insertion sort), sampler_spec (equation: thread info and '
-              'user stack iff flag bit and record, first record wins, first N chained words, threads_pids update).')
+              'user stack iff flag bit and record, first record wins, first N chained words, threads_pids update).  '
+              'Translation tie: source_is_expected_ir + handle_thd_data_ir_eq_model / handle_event_ir_eq_model / '
+              'handle_mach_vmfault_ir_eq_model / handle_timing_launch_executable_ir_eq_model / run_ir_eq_model: the subjects '
+              'of these theorems are the handlers translated from the source text, run by a big-step interpreter.')
 LEVEL_NOTE = ('Trusted: Lean kernel, the hand models named above (validated differentially on every enumerated window shape), '
-              'the AST translator for the three RealFaultAddress* decoders.  The independent oracle recomputes every expected '
+              'the AST translator for the three RealFaultAddress* decoders, the AST translator + interpreter of the composite '
+              'handlers (tools/gen_pyir_co.py, Model/PyIRCo; every section is re-run through them).  The independent oracle recomputes every expected '
               'payload and text from the scenario description with its own XNU tables.')
 TECHNIQUE = ('Lean 4 proof: equations for all windows by case analysis + induction (stable insertion sort), reflective '
-             'kernel check of the generated nested decoders; exhaustive enumeration of nested-record sequences up to length 4 '
+             'kernel check of the generated nested decoders; translation tie (source text -> deep-embedded Python-subset IR -> '
+             'big-step interpreter = hand model, for all inputs); exhaustive enumeration of nested-record sequences up to length 4 '
              'through the real feed_generator with a description-based oracle')
 
 # ---------------------------------------------------------------------------------------------------------
@@ -929,7 +941,27 @@ def section(rep, name, cases, rule):
                      sample_fn=lambda c: {'section': name, 'events': len(c['events']), 'expect': c['desc']['expect'][:2]})
 
 
+MIRROR = {'traces': 'tracesco'}
+
+
+def translation_tie(rep):
+    """Checks `source_is_expected_ir` through the driver (the build reports it too, with less detail) and switches the `*-ir`
+    mirror sections on: every section driven by `traces` is driven a second time through the composite handlers GENERATED
+    from perf.py / mach.py / dyld.py (`tracesco`) and compared with the same answers of the real code."""
+    ans = core.drive(['coircheck'])[0]
+    if ans == 'same':
+        rep.notes.append('translation tie: Gen/PyIRCo (from trace_handlers/perf.py, mach.py handle_mach_vmfault, dyld.py '
+                         'handle_timing_launch_executable) = Spec/PyIRCoExpected')
+    else:
+        rep.broken.append('theorem source_is_expected_ir: the IR that tools/gen_pyir_co.py translates from the source text of '
+                          'the composite handlers (trace_handlers/perf.py, mach.py, dyld.py) is not the program of '
+                          'Spec/PyIRCoExpected that handle_*_ir_eq_model are proved for (%s)' % ans)
+    rep.mirror = dict(MIRROR)
+    return 'unsupported' not in ans
+
+
 def correspondence(rep, rng, tier):
+    translation_tie(rep)
     check_attributes(rep)
     section(rep, 'vmfault', gen_vmfault(rng, tier),
             'page-fault windows through the real feed_generator: every sequence of 0..4 nested records over '
